@@ -241,6 +241,12 @@ def translate(text, ctx, closure_specs=()):
     if ctx.profile != 'verbatim':
         t = r19_panics(ctx, t)
     sig, body = r1_signature(ctx, t)
+    if ctx.profile != 'verbatim' and re.search(r'\(\s*mut self\b', sig):
+        # R20: Verus has no `mut self` parameters: take `self` by value and work on a local copy named this__
+        sig = re.sub(r'\(\s*mut self\b', '(self', sig, count=1)
+        inner = re.sub(r'(?<![\w.])self\b', 'this__', body[body.index('{') + 1:body.rindex('}')])
+        body = '{\n    let mut this__ = self;' + inner + '}'
+        ctx.hit('R20')
     if ctx.profile in ('unsync', 'sync'):
         sig = _sub(ctx, 'R4', r'&UnsafeCell<u64>', 'CellRef', sig)
         sig = _sub(ctx, 'R4', r'&AtomicU64', 'CellRef', sig)
